@@ -4,13 +4,14 @@ every history and every fault script, up to the first ambiguous event -/
 namespace NfcVerif.SectC03
 open NfcVerif
 
-/-- one executed command is consistent: belief = reality while nothing ambiguous happened, and a page command
+/-- one executed command is consistent: belief = reality (or unknown) while nothing ambiguous happened, and a page command
 of the memory reader was sent while the object believed the sector of its linear page -/
 def EvOk (e : Ev) : Prop :=
-  (e.clean = true → e.bel = e.real) ∧ (e.mr = true → e.kind ≠ .select → e.bel = e.page / 256)
+  (e.clean = true → e.bel = none ∨ e.bel = some e.real) ∧
+  (e.mr = true → e.kind ≠ .select → e.bel = some (e.page / 256))
 
 def TraceOk (w : W) : Prop := ∀ e ∈ w.trace, EvOk e
-def Bel (w : W) : Prop := w.amb = false → w.cur = w.tag.sector
+def Bel (w : W) : Prop := w.amb = false → w.cur = none ∨ w.cur = some w.tag.sector
 def Inv (w : W) : Prop := Bel w ∧ TraceOk w
 
 def Frame.isSs2 : Frame → Bool
@@ -19,8 +20,8 @@ def Frame.isSs2 : Frame → Bool
 /-- what the caller guarantees when it sends a page frame on behalf of the memory reader -/
 def Pre (w : W) (mr : Bool) (f : Frame) : Prop :=
   mr = true → match f with
-    | .read p => w.cur = p / 256
-    | .write p _ => w.cur = p / 256
+    | .read p => w.cur = some (p / 256)
+    | .write p _ => w.cur = some (p / 256)
     | _ => True
 
 theorem tagExec_kind (t : Tag) (f : Frame) (k : Kind) (h : (tagExec t f).2.2 = some k) :
@@ -148,28 +149,28 @@ theorem selectP2_trace (w1 : W) (mr : Bool) (s : Nat) :
   · next w2 e heq => rw [heq]; split <;> rfl
   · next w2 d heq => rw [heq]
 
-/-- packet 2: afterwards the belief is right unless the passive acknowledgement was not faithful -/
+/-- packet 2: afterwards the belief is right or unknown unless the passive acknowledgement was not faithful -/
 theorem selectP2_bel (w1 : W) (mr : Bool) (s : Nat) (hb : Bel w1) (hpend : w1.tag.pend = true) :
-    Bel (selectP2 w1 mr s).1 ∧ (∀ v, (selectP2 w1 mr s).2 = .ok v → (selectP2 w1 mr s).1.cur = s) := by
+    Bel (selectP2 w1 mr s).1 ∧ (∀ v, (selectP2 w1 mr s).2 = .ok v → (selectP2 w1 mr s).1.cur = some s) := by
   unfold Bel at *
   unfold selectP2 exchange
   cases hs : w1.script with
   | nil =>
     by_cases hv : s * 1024 < w1.tag.mem.length <;>
-      simp [execute, tagExec, hpend, hv, ss2Faithful, errOf] <;> intro h <;> simp_all
+      simp [execute, tagExec, hpend, hv, ss2Faithful] <;> intro h <;> simp_all
   | cons a rest =>
     cases a with
     | ok =>
       by_cases hv : s * 1024 < w1.tag.mem.length <;>
-        simp [execute, tagExec, hpend, hv, ss2Faithful, errOf] <;> intro h <;> simp_all
+        simp [execute, tagExec, hpend, hv, ss2Faithful] <;> intro h <;> simp_all
     | drop => simp [ss2Faithful]
     | corrupt e => cases e <;> simp [ss2Faithful, errOf] <;> intro h <;> simp_all
     | lost e =>
       by_cases hv : s * 1024 < w1.tag.mem.length <;> cases e <;>
-        simp [execute, tagExec, hpend, hv, ss2Faithful, errOf] <;> intro h <;> simp_all
+        simp [execute, tagExec, hpend, hv, ss2Faithful, errOf] <;> (try (intro h; simp_all))
 
 theorem selectP2_spec (w1 : W) (mr : Bool) (s : Nat) (hi : Inv w1) (hpend : w1.tag.pend = true) :
-    Inv (selectP2 w1 mr s).1 ∧ (∀ v, (selectP2 w1 mr s).2 = .ok v → (selectP2 w1 mr s).1.cur = s) := by
+    Inv (selectP2 w1 mr s).1 ∧ (∀ v, (selectP2 w1 mr s).2 = .ok v → (selectP2 w1 mr s).1.cur = some s) := by
   have hx := exchange_spec w1 mr (.ss2 s) hi.1 hi.2 (by intro _; trivial)
   have hb := selectP2_bel w1 mr s hi.1 hpend
   refine ⟨⟨hb.1, ?_⟩, hb.2⟩
@@ -178,10 +179,10 @@ theorem selectP2_spec (w1 : W) (mr : Bool) (s : Nat) (hi : Inv w1) (hpend : w1.t
   exact hx.1 e he
 
 theorem sectorSelect_spec (w : W) (mr : Bool) (s : Nat) (hi : Inv w) :
-    Inv (sectorSelect w mr s).1 ∧ (∀ v, (sectorSelect w mr s).2 = .ok v → (sectorSelect w mr s).1.cur = s) := by
+    Inv (sectorSelect w mr s).1 ∧ (∀ v, (sectorSelect w mr s).2 = .ok v → (sectorSelect w mr s).1.cur = some s) := by
   unfold sectorSelect
   split
-  · next h => exact ⟨hi, fun _ _ => h.symm⟩
+  · next h => exact ⟨hi, fun _ _ => h⟩
   · have ht := transceive_spec 3 w mr .ss1 .timeout rfl hi (by intro _; trivial)
     split
     · next w1 e heq =>
@@ -198,27 +199,25 @@ theorem sectorSelect_spec (w : W) (mr : Bool) (s : Nat) (hi : Inv w) :
       · subst hw
         exact ⟨ht.1, fun v hv => by simp at hv⟩
 
-theorem read_spec (w : W) (mr : Bool) (p : Nat) (hi : Inv w) (hp : mr = true → w.cur = p / 256) :
-    Inv (read w mr p).1 ∧ (read w mr p).1.cur = w.cur := by
+theorem read_spec (w : W) (mr : Bool) (p : Nat) (hi : Inv w) (hp : mr = true → w.cur = some (p / 256)) :
+    Inv (read w mr p).1 := by
   have ht := transceive_spec 3 w mr (.read p) .timeout rfl hi (by intro hm; exact hp hm)
   unfold read
   split
   · next w1 e heq =>
     have : w1 = (transceive 3 w mr (.read p) .timeout).1 := by rw [heq]
     subst this
-    exact ⟨ht.1, ht.2.1⟩
+    exact ht.1
   · next w1 d heq =>
     have : w1 = (transceive 3 w mr (.read p) .timeout).1 := by rw [heq]
     subst this
     split
-    · refine ⟨⟨fun ha => ?_, ht.1.2⟩, ht.2.1⟩
-      simp only [Bool.or_eq_false_iff, decide_eq_false_iff_not, Decidable.not_not] at ha
-      simpa using ha.2
+    · exact ⟨fun _ => Or.inr rfl, ht.1.2⟩
     · split
-      · exact ⟨ht.1, ht.2.1⟩
-      · exact ⟨ht.1, ht.2.1⟩
+      · exact ht.1
+      · exact ht.1
 
-theorem write_spec (w : W) (mr : Bool) (p : Nat) (d : Bytes) (hi : Inv w) (hp : mr = true → w.cur = p / 256) :
+theorem write_spec (w : W) (mr : Bool) (p : Nat) (d : Bytes) (hi : Inv w) (hp : mr = true → w.cur = some (p / 256)) :
     Inv (write w mr p d).1 ∧ (write w mr p d).1.cur = w.cur := by
   unfold write
   split
@@ -251,19 +250,19 @@ theorem readFrom_inv (fuel : Nat) (w : W) (m : MR) (index stop : Nat) (hi : Inv 
         exact hs.1
       · next w1 v heq =>
         have hw : w1 = (sectorSelect w true (index / 1024)).1 := by rw [heq]
-        have hc : w1.cur = index / 1024 := by
+        have hc : w1.cur = some (index / 1024) := by
           subst hw
           exact hs.2 v (by rw [heq])
-        have hr := read_spec w1 true (index / 4) (hw ▸ hs.1) (fun _ => by rw [hc]; omega)
+        have hr := read_spec w1 true (index / 4) (hw ▸ hs.1) (fun _ => by rw [hc]; congr 1; omega)
         split
         · next w2 e heq2 =>
           have : w2 = (read w1 true (index / 4)).1 := by rw [heq2]
           subst this
-          exact hr.1
+          exact hr
         · next w2 d heq2 =>
           have : w2 = (read w1 true (index / 4)).1 := by rw [heq2]
           subst this
-          exact ih _ _ _ hr.1
+          exact ih _ _ _ hr
     · exact hi
 
 theorem writeUnits_inv (is : List Nat) (w : W) (m : MR) (hi : Inv w) : Inv (writeUnits is w m).1.1 := by
@@ -280,10 +279,10 @@ theorem writeUnits_inv (is : List Nat) (w : W) (m : MR) (hi : Inv w) : Inv (writ
         exact hs.1
       · next w1 v heq =>
         have hw : w1 = (sectorSelect w true (i / 1024)).1 := by rw [heq]
-        have hc : w1.cur = i / 1024 := by
+        have hc : w1.cur = some (i / 1024) := by
           subst hw
           exact hs.2 v (by rw [heq])
-        have hr := write_spec w1 true (i / 4) (sliceN m.cache i (i + 4)) (hw ▸ hs.1) (fun _ => by rw [hc]; omega)
+        have hr := write_spec w1 true (i / 4) (sliceN m.cache i (i + 4)) (hw ▸ hs.1) (fun _ => by rw [hc]; congr 1; omega)
         split
         · next w2 e heq2 =>
           have : w2 = (write w1 true (i / 4) (sliceN m.cache i (i + 4))).1 := by rw [heq2]
@@ -320,7 +319,7 @@ theorem step_inv (s : W × MR) (o : Op) (hi : Inv s.1) : Inv (step s o).1.1 := b
     have := writeUnits_inv ((List.range ((s.2.fromTag.length + 3) / 4)).map (· * 4)) s.1 s.2 hi
     simp only [step, synchronize]; split <;> simp_all
   | sel n => have := (sectorSelect_spec s.1 false n hi).1; simp only [step]; split <;> simp_all
-  | rd p => have := (read_spec s.1 false p hi (by simp)).1; simp only [step]; split <;> simp_all
+  | rd p => have := read_spec s.1 false p hi (by simp); simp only [step]; split <;> simp_all
   | wr p d => have := (write_spec s.1 false p d hi (by simp)).1; simp only [step]; split <;> simp_all
 
 theorem run_inv (ops : List Op) (s : W × MR) (hi : Inv s.1) : Inv (run s ops).1.1 := by
